@@ -7,7 +7,7 @@
    PARTIAL: discovery while trials run and save+reload inside a grid search are explored on the implementation (exactly-once at
    STOPPED over the final space), not proved. *)
 From stdpp Require Import gmap list.
-From KT Require Import Lifecycle LInv G3 G4 GR GQ GT2.
+From KT Require Import Lifecycle LInv LSync G3 G4 GR GQ GT2.
 
 (* _get_next_combination is the successor function of the enumeration: the last combination has none, every other one is
    followed by its neighbour *)
@@ -31,6 +31,15 @@ Theorem C09_invariant : ∀ sp : list hp, wo [] sp → ∀ c : cfg, max_trials c
     Forall (λ rs : resp * ostate, GInv sp rs.2) (run ∅ score_fn (gpopulate sp) gend habort (λ g : gstate, g) (λ v : vals, v) c s ops).
 Proof. exact run_ginv. Qed.
 
+(* ... and save+reload at any point keeps it (the linked list and the pending queue are part of the saved state, payloads come
+   back from the trial files, running trials are queued again): the invariant in every state of every run WITH reloads *)
+Theorem C09_invariant_reload : ∀ sp : list hp, wo [] sp → ∀ c : cfg, max_trials c = None →
+  ∀ (score_fn : vals → scored ()) (ops : list op), abort_early c = false → ∀ s : ostate,
+    Inv s → DSync s → GInv sp s → Forall static_op_r ops →
+    no_abort (run ∅ score_fn (gpopulate sp) gend habort (λ g : gstate, g) (λ v : vals, v) c s ops) →
+    Forall (λ rs : resp * ostate, GInv sp rs.2) (run ∅ score_fn (gpopulate sp) gend habort (λ g : gstate, g) (λ v : vals, v) c s ops).
+Proof. exact run_ginv_reload. Qed.
+
 (* ... hence whenever the grid answers STOPPED, the values of the trials are a permutation of all combinations: every
    combination exactly once *)
 Theorem C09_stopped_complete : ∀ sp : list hp, wo [] sp → ∀ c : cfg, max_trials c = None → (vals → scored ()) →
@@ -43,4 +52,5 @@ Proof. exact grid_stopped_complete. Qed.
 Print Assumptions C09_successor.
 Print Assumptions C09_compare.
 Print Assumptions C09_invariant.
+Print Assumptions C09_invariant_reload.
 Print Assumptions C09_stopped_complete.
